@@ -41,6 +41,8 @@ fn do_call(u: &Unimock, m: u32, a: u8) -> String {
         6 => <Unimock as G<u8>>::g(u, a).take(),
         7 => <Unimock as G<u16>>::g(u, a).take(),
         9 => take_triple(u.mt(a)),
+        38 => <Unimock as R1>::get::<u8>(u, a).take(),
+        39 => <Unimock as R2>::get::<u8>(u, a).take(),
         _ => panic!("harness: no such method {m}"),
     }
 }
